@@ -101,7 +101,7 @@ class C10(Prop):
     pid = "C10"
     prop_file = "Props/C10.v"
     module = "Props.C10"
-    gen_deps = ["Palette"]
+    gen_deps = ["Palette", "LossyFn"]
     harness = ("h-lossy", "hlossy")
     nontrivial_rule = (
         "ONE CASE LINE IS A BATCH: a palette plus a list (or arithmetic range) of RGB colours, answered by the list of result indices; `cases`/`evaluations` "
